@@ -26,14 +26,11 @@ RECURSIVE MaskOf(_)
 MaskOf(F) == IF F = {} THEN 0 ELSE LET i == CHOOSE i \in F : TRUE IN 2 ^ (i - 1) + MaskOf(F \ {i})
 SeqSet(s) == {s[i] : i \in DOMAIN s}
 
-\* (Tab is re-read on every use: the rows are bound once per version, outside the function over the subsets)
-TabUp    == TLCEval([v \in 1..(TabLatest - 1) |->
-                       LET row == Tab.up[v] IN TLCEval([F \in SUBSET TabFeat |-> SeqSet(row[MaskOf(F) + 1])])])
-TabUpOut == TLCEval([v \in 1..(TabLatest - 1) |->
-                       LET row == Tab.upx[v] IN TLCEval([F \in SUBSET TabFeat |-> row[MaskOf(F) + 1]])])
+TabUp    == TLCEval([v \in 1..(TabLatest - 1) |-> [F \in SUBSET TabFeat |-> SeqSet(Tab.up[v][MaskOf(F) + 1])]])
+TabUpOut == TLCEval([v \in 1..(TabLatest - 1) |-> [F \in SUBSET TabFeat |-> Tab.upx[v][MaskOf(F) + 1]]])
 
 \* shape of the file (a malformed file is a machinery failure, not a verdict)
-ASSUME /\ TabNF \in 1..16 /\ TabLatest \in 1..8
+ASSUME /\ TabNF \in 1..12 /\ TabLatest \in 1..8
        /\ Len(Tab.added) = TabNF /\ Len(Tab.depr) = TabNF
        /\ \A f \in TabFeat : TabAdded[f] \in 1..TabLatest /\ TabDepr[f] \in 0..(TabLatest + 1)
        /\ Len(Tab.up) = TabLatest - 1 /\ Len(Tab.upx) = TabLatest - 1
